@@ -251,7 +251,7 @@ func main() {
 		"[<join> t2 x2 ON ...] [WHERE conjuncts] over generated JSON tables (0-6 rows, NULL and duplicate keys, duplicate rows), each query with and without --optimize=false; " +
 		"inner/lookup through -o json, queries with an outer join through -o stream_native (retractions visible); oracle = rel_join computed in Coq, rows compared as bags; " +
 		"non-trivial = the expected result has a matched pair and some key is NULL or duplicated"
-	n := f.Cases(140, 1200)
+	n := f.Cases(100, 1200)
 	// the pinned-tree witness first: NULL keys on both sides, optimizer on
 	queries := 0
 	for i := 0; i < n; i++ {
